@@ -65,7 +65,7 @@ func c01Compare(res *explore.Result, t *ref.Table, b *impl.Built, nt, s int, o i
 		return false
 	}
 	alts := impl.Alternatives(o.Node)
-	base := 1
+	base := impl.Base
 	var implEnds uint64
 	implTrees := map[string]bool{}
 	for _, a := range alts {
@@ -169,7 +169,7 @@ func c01Grammar(res *explore.Result, g *gram.Grammar, inputs [][]byte, verbose b
 		}
 		lastLen = len(w)
 		t := ref.Compute(g, an, w, true)
-		c := Case{Grammar: gs, Input: string(w)}
+		c := Case{Placement: impl.Placement, Grammar: gs, Input: string(w)}
 		if anyOver(t) && len(w) > 2 {
 			// infinitely (or hugely) ambiguous on this input: the number of returned trees is a
 			// power tower in the curtailment depth; such pairs are explored for |w| <= 2 only.
@@ -190,7 +190,7 @@ func c01Grammar(res *explore.Result, g *gram.Grammar, inputs [][]byte, verbose b
 			}
 			if verbose {
 				res.Notes = append(res.Notes, fmt.Sprintf("N%d at %d (%s): reference ends %v trees %v | library %s", nt, s, phase,
-					t.EndSet(g.NTs[nt].ID, s), t.TreeStrings(g.NTs[nt].ID, s), impl.Render(o.Node, 1)))
+					t.EndSet(g.NTs[nt].ID, s), t.TreeStrings(g.NTs[nt].ID, s), impl.Render(o.Node, impl.Base)))
 			}
 			if res.Counters["states"]%20000 == 1 {
 				res.Sample(fmt.Sprintf("%s N%d@%d -> ends %v, %d tree(s)", c, nt, s, t.EndSet(g.NTs[nt].ID, s), len(t.Trees[g.NTs[nt].ID][s])))
@@ -221,7 +221,7 @@ func c01Grammar(res *explore.Result, g *gram.Grammar, inputs [][]byte, verbose b
 
 func c01Run(env *explore.Env) *explore.Result {
 	res := explore.NewResult()
-	eachGrammar(env, res, c01Specs(env.Tier), seedCorpus, func(g *gram.Grammar, inputs [][]byte, _ bool) {
+	eachGrammarPlaced(env, res, c01Specs(env.Tier), seedCorpus, func(g *gram.Grammar, inputs [][]byte, _ bool) {
 		c01Grammar(res, g, inputs, false)
 	})
 	return res
